@@ -29,6 +29,9 @@ class Ctx:
         self.expand_array_selects()
         self.split_cat_targets()
         self.alias_wires()
+        if not getattr(self.t, "prev_expanded", False):
+            self.expand_previous_values()
+            self.t.prev_expanded = True
         self.groups, self.tir = {}, {}
         for d in self.t.drivers:
             # values that contain a replicated-strobe mask are stored in their Mux form (needs the width knowledge of this context)
@@ -41,6 +44,55 @@ class Ctx:
             key = (d.domain, ir.show(tn))
             self.groups.setdefault(key, []).append(d)
             self.tir[key] = tn
+
+    def expand_previous_values(self):
+        """A Python variable that hands a value from one iteration of a generation loop to the next (`prev = None` before the
+        loop, `prev = f(i)` at the end of the body, read at the top) is, in iteration i, `f(i - 1)` for i > 0 and the initial
+        value for i == 0 -- provided f depends on the iteration only through its index (not through a per-iteration object).
+        Drivers that mention such a variable are rewritten to that form and then simplified under their own generation
+        conditions (`if prev is not None:` is `i > 0`)."""
+        prev = {}
+        for fid, f in self.t.folds.items():
+            upd = f.update
+            if upd is None or upd == ('undef',) or f.loop not in self.t.loops:
+                continue
+            L = f.loop
+            if any(x == ('carry', fid) or (x[0] == 'item' and x[1] == L) or x[0] in ('sig', 'obj', 'acc', 'listacc', 'carry', 'final')
+                   or (x[0] == 'sub' and x[2] == ('idx', L)) for x in ir.walk(upd)):
+                continue                                # a recurrence, or a value tied to the iteration's own objects
+            lp = self.t.loops[L]
+            if getattr(lp, "reversed", False) or (lp.kind == 'range' and ir.norm(lp.bounds[0]) != ('const', 0)):
+                continue
+            shifted = ir.subst(upd, lambda x: ('bin', '-', ('idx', L), ('const', 1)) if x == ('idx', L) else None)
+            prev[fid] = ('phi', ('cmp', '<', ('const', 0), ('idx', L)), shifted, f.init)
+        if not prev:
+            return
+
+        def sub(e):
+            return ir.subst(e, lambda x: prev.get(x[1]) if x[0] == 'carry' and x[1] in prev else None)
+        for d_ in self.t.drivers:
+            if not any(x[0] == 'carry' and x[1] in prev for e in [d_.target, d_.value] + [fr[1] for fr in d_.gen if fr[0] == 'pyif'] +
+                       [fr[1] for fr in d_.dsl if fr[0] in ('if', 'elif')] for x in ir.walk(e)):
+                continue
+            gen = tuple((fr[0], self.norm(sub(fr[1]))) + tuple(fr[2:]) if fr[0] == 'pyif' else fr for fr in d_.gen)
+            known = {}
+            for fr in gen:
+                if fr[0] == 'pyif':
+                    pos, pol = ir.split_neg(fr[1])
+                    known[pos] = (bool(fr[2][0]) if isinstance(fr[2], tuple) else bool(fr[2])) == pol
+
+            def resolve(e):
+                def f_(x):
+                    if x[0] == 'phi':
+                        pos, pol = ir.split_neg(self.norm(x[1]))
+                        if pos in known:
+                            return x[2] if known[pos] == pol else x[3]
+                    return None
+                return self.norm(ir.subst(self.norm(e), f_))
+            d_.gen = gen
+            d_.target = resolve(sub(d_.target))
+            d_.value = resolve(sub(d_.value))
+            d_.dsl = tuple((fr[0], resolve(sub(fr[1]))) + tuple(fr[2:]) if fr[0] in ('if', 'elif') else fr for fr in d_.dsl)
 
     def expand_wires(self):
         """`x.eq(w)` where w is a local signal driven only combinationally and only as a whole: the driver is replaced by
@@ -138,9 +190,39 @@ class Ctx:
                     len(tn[2]) == len(vn[2]) and tn[2] and all(self.w.bit(x) for x in tn[2]) and all(self.w.bit(x) for x in vn[2]):
                 for k_, (tp, vp) in enumerate(zip(tn[2], vn[2])):
                     out.append(dsl.Driver(d_.domain, tp, vp, d_.dsl, d_.gen, tuple(d_.order) + (k_,), d_.lineno, d_.seqno))
+            elif tn[0] == 'call' and tn[1] == ('name', 'Cat') and vn[0] == 'call' and vn[1] == ('name', 'Cat') and \
+                    len(tn[2]) == 1 and len(vn[2]) == 1 and tn[2][0][0] == 'listacc' and vn[2][0][0] == 'listacc' and \
+                    self._parallel_lists(tn[2][0], vn[2][0], d_):
+                # Cat(targets).eq(Cat(values)) with two lists filled side by side, each target as wide as its value: the k-th
+                # target gets the k-th value, in the generation context of the append
+                A, B = self.t.lists[tn[2][0][1]], self.t.lists[vn[2][0][1]]
+                keep = tuple(fr for fr in d_.gen if not (fr[0] == 'pyif' and ir.norm(fr[1], self.nctx) in (tn[2][0], vn[2][0])))
+                for k_, ((ta, ga, la), (vb, gb, lb)) in enumerate(zip(A.items, B.items)):
+                    out.append(dsl.Driver(d_.domain, ta, vb, d_.dsl, keep + tuple(ga), tuple(d_.order) + (k_,), d_.lineno, d_.seqno))
             else:
                 out.append(d_)
         self.t.drivers[:] = out
+
+    def _parallel_lists(self, la, lb, d_):
+        A, B = self.t.lists.get(la[1]), self.t.lists.get(lb[1])
+        if A is None or B is None or not A.items or len(A.items) != len(B.items) or A.home or B.home:
+            return False
+        if any(fr[0] == 'for' for fr in d_.gen):
+            return False
+        for (ta, ga, _), (vb, gb, _) in zip(A.items, B.items):
+            if tuple(ga) != tuple(gb):
+                return False
+            ta_, vb_ = ir.norm(ta, self.nctx), ir.norm(vb, self.nctx)
+            same_width = False
+            if ta_[0] == 'sig' and ta_[1] in self.t.sigs:
+                ctor = self.t.sigs[ta_[1]].ctor
+                if ctor[0] == 'call' and ctor[1] == ('attr', ('name', 'Signal'), 'like') and ctor[2] and ir.norm(ctor[2][0], self.nctx) == vb_:
+                    same_width = True
+            if self.w.bit(ta_) and self.w.bit(vb_):
+                same_width = True
+            if not same_width:
+                return False
+        return True
 
     def alias_wires(self):
         """A local combinational signal with exactly one, unconditional, whole-signal driver is another name for the value
@@ -520,6 +602,26 @@ class Ctx:
                         it = self.norm(Lp.iter)
                         if e[1] in seqs or any(x == e[1] for x in ir.walk(it)):
                             out.extend(ds)
+        return out
+
+    def driven_inside_cat(self, target):
+        """Drivers whose target is a concatenation (directly, or through a list filled by append) that has `target` among its
+        parts: the signal is driven, through a form the per-signal rules do not take apart."""
+        tn = self.norm(target)
+        gen_free = ir.subst(tn, lambda x: ('name', '<i>') if x[0] in ('idx', 'item') else None)
+        out = []
+        for d_ in self.t.drivers:
+            t = self.norm(d_.target)
+            if not (t[0] == 'call' and t[1] == ('name', 'Cat')):
+                continue
+            parts = []
+            for a in t[2]:
+                if a[0] == 'listacc' and a[1] in self.t.lists:
+                    parts.extend(self.norm(v) for v, g_, l_ in self.t.lists[a[1]].items)
+                else:
+                    parts.append(a)
+            if any(ir.subst(p_, lambda x: ('name', '<i>') if x[0] in ('idx', 'item') else None) == gen_free for p_ in parts):
+                out.append(d_)
         return out
 
     def domains_of(self, target):
@@ -929,10 +1031,40 @@ def raise_sites(c, depth=1):
     return out
 
 
+def _is_int_test(e):
+    """isinstance(X, int) -> X"""
+    if e[0] == 'call' and e[1] == ('name', 'isinstance') and len(e[2]) == 2 and e[2][1] == ('name', 'int'):
+        return e[2][0]
+    return None
+
+
+def int_canon(e, ints=frozenset()):
+    """Comparisons of an *integer* with a constant have one form: x < K is not (K-1 < x).  x is known to be an integer
+    inside `not isinstance(x, int) or ...` (the other disjuncts are only evaluated for integers) and inside
+    `isinstance(x, int) and ...`.  So `x < 1` and `x <= 0` are the same refusal when both sit behind the type test."""
+    if e[0] == 'or':
+        here = {x[2] for x in e[1] if x[0] == 'un' and x[1] == 'not' and _is_int_test(x[2]) is not None}
+        here = frozenset(_is_int_test(x) for x in here) | ints
+        return ('or', tuple(int_canon(x, here) for x in e[1]))
+    if e[0] == 'and':
+        here = frozenset(_is_int_test(x) for x in e[1] if _is_int_test(x) is not None) | ints
+        return ('and', tuple(int_canon(x, here) for x in e[1]))
+    if e[0] == 'un' and e[1] == 'not':
+        return ('un', 'not', int_canon(e[2], ints))
+    if e[0] == 'cmp' and e[1] == '<' and e[2] in ints and e[3][0] == 'const' and isinstance(e[3][1], int) and not isinstance(e[3][1], bool):
+        return ('un', 'not', ('cmp', '<', ('const', e[3][1] - 1), e[2]))
+    return e
+
+
 def _formula(c, conds):
     parts = []
+    ints = set()
     for cd, pol in conds:
-        f = c.eng.cond(cd)
+        x = _is_int_test(cd)
+        if x is not None and pol:
+            ints.add(x)
+    for cd, pol in conds:
+        f = c.eng.cond(c.norm(int_canon(cd, frozenset(ints))))
         parts.append(f if pol else dl.f_not(f))
     return dl.f_and(*parts)
 
@@ -959,11 +1091,16 @@ def refuses(c, cond_texts, exc=None, env=None, loop_values=None):
     if loop_values is not None:
         elem, lid = literal_loop(c, loop_values)
         if elem is None:
+            # the same collection traversed by a comprehension (next(... for x in {...} if ...), any(...)): not followed
+            for n in ast.walk(c.fi.node):
+                if isinstance(n, ast.comprehension) and isinstance(n.iter, (ast.Set, ast.Tuple, ast.List)) and \
+                        sorted(e.value for e in n.iter.elts if isinstance(e, ast.Constant)) == sorted(loop_values):
+                    return None, f"the collection {sorted(loop_values)} is traversed by a comprehension (next / any), which the rule does not follow"
             return False, f"no loop over the literal collection {sorted(loop_values)}"
         env["v"] = elem
     wants = []
     for t in ([cond_texts] if isinstance(cond_texts, str) else cond_texts):
-        wants.append(c.eng.cond(c.parse(t, env)))
+        wants.append(c.eng.cond(c.norm(int_canon(c.parse(t, env)))))
     sites = []
     for conds, e, loops, ln, via in raise_sites(c):
         if lid is not None and lid not in loops and via is None:
@@ -1075,3 +1212,31 @@ def check_refusal(rep, rule, c, what, cond_texts, exc, env=None, loop_values=Non
             pass
     rep.check(ok, rule, c.fi.site, what, detail)
     return ok
+
+
+def merge_complementary(c, calls):
+    """Two copies of one call that sit under `cond` and `not cond` (a loop body replayed for the two yields of a generator, the
+    two arms of an if) are one call whose arguments are the choice between the two."""
+    if len(calls) != 2:
+        return calls
+    (a, ga, la), (b, gb, lb) = calls
+    fa = [fr for fr in ga if fr[0] == 'pyif']
+    fb = [fr for fr in gb if fr[0] == 'pyif']
+    if len(ga) != len(gb) or not fa or not fb:
+        return calls
+    diff = [(x, y) for x, y in zip(ga, gb) if x != y]
+    if len(diff) != 1 or diff[0][0][0] != 'pyif' or diff[0][1][0] != 'pyif':
+        return calls
+    x, y = diff[0]
+    if c.norm(x[1]) != c.norm(y[1]) or bool(x[2]) == bool(y[2]):
+        return calls
+    if a[1] != b[1] or len(a[2]) != len(b[2]) or [k for k, _ in a[3]] != [k for k, _ in b[3]]:
+        return calls
+    cond = c.norm(x[1])
+    t, f = (a, b) if x[2] else (b, a)
+
+    def phi(u, v):
+        return u if u == v else c.norm(('phi', cond, u, v))
+    merged = ('call', a[1], tuple(phi(u, v) for u, v in zip(t[2], f[2])), tuple((k, phi(u, v)) for (k, u), (_, v) in zip(t[3], f[3])))
+    gen = tuple(fr for fr in ga if fr != x)
+    return [(merged, gen, la)]
